@@ -110,7 +110,8 @@ impl OperationControl for GreedyFixed {
         }
         let steps = IntStepIterator::new(
             p,
-            -(self.len as i64),
+            // (a length no input can have is as good as the largest step)
+            -i64::try_from(self.len).unwrap_or(i64::MAX),
             position.saturating_add(self.len.saturating_mul(self.min)),
         );
         if self.contains_capturing_expressions() {
@@ -123,7 +124,7 @@ impl OperationControl for GreedyFixed {
                 matcher,
                 saved,
                 Box::new(steps.inspect(move |end| {
-                    if !first && *end >= position + len {
+                    if !first && *end >= position.saturating_add(len) {
                         operation.matches_iter(matcher, *end - len).next();
                     }
                     first = false;
@@ -167,9 +168,9 @@ struct IntStepIterator {
 impl IntStepIterator {
     pub(crate) fn new(current: usize, step: i64, limit: usize) -> Self {
         Self {
-            current: current as i64,
+            current: i64::try_from(current).unwrap_or(i64::MAX),
             step,
-            limit: limit as i64,
+            limit: i64::try_from(limit).unwrap_or(i64::MAX),
         }
     }
 }
